@@ -1,48 +1,87 @@
 ------------------------------ MODULE FramedIo ------------------------------
 (* A framed byte stream over a transport that may end or fail at any byte      *)
-(* (C08).  Items (RTMP messages; FLV header and tags) occupy consecutive byte  *)
-(* ranges; End[i] is the offset just after item i.  The writer hands items to  *)
-(* the transport; the transport shows the reader a prefix: everything, or the  *)
-(* first `cut` bytes followed by end-of-stream, or the bytes before an         *)
-(* injected read error.  The reader returns items one call at a time.          *)
-EXTENDS Integers, Sequences
+(* (C08).  Items (RTMP messages; FLV header and tags; handshake packets)       *)
+(* occupy consecutive byte ranges; EndOf(i) is the offset just after item i.   *)
+(* The library is called once per item (ReadMessage / ReadTag / WriteMessage / *)
+(* WriteTag ...); during a call it issues transport calls, each of which moves *)
+(* some bytes.  The reader may fetch ahead of the item it was asked for (a     *)
+(* buffered reader); the writer hands over at most the item it was given and   *)
+(* has handed over all of it when its call returns.                            *)
+(* The transport: delivers everything and then ends; or ends after `at` bytes  *)
+(* (cut); or FAILS ONCE: the first transport call issued once `at` bytes have  *)
+(* moved returns the transport's own error and moves nothing, later calls work *)
+(* again (a timeout, an interrupted call).  Every call index of every          *)
+(* segmentation is such an `at`.                                               *)
+EXTENDS Integers, Sequences, FiniteSets
 
 CONSTANTS Sizes,        \* sequence of item sizes in bytes (>= 1)
-          PartialOk     \* FALSE (the property). TRUE: named deviation "a partially transferred item is returned"
+          PartialOk,    \* FALSE (the property). TRUE: named deviation "a partially transferred item is returned"
+          Swallow       \* "never" (the property). "at-boundary": named deviation "fault-swallowed-at-boundary": a transport
+                        \* error that is not the end of the stream is dropped when it hits the first transport call of an
+                        \* item (a probe for the clean end between two items that forgets what else it was told)
 
 N == Len(Sizes)
 RECURSIVE EndOf(_)
 EndOf(i) == IF i = 0 THEN 0 ELSE EndOf(i - 1) + Sizes[i]
 Total == EndOf(N)
 
-VARIABLES plan,      \* [kind |-> "none"|"cut"|"readfault", at |-> byte offset]
-          returned,  \* indices of items returned with nil error, in order
-          outcome    \* "reading" | "eof" | "injected" : how the reader's last call ended
-vars == <<plan, returned, outcome>>
+VARIABLES plan,      \* [kind |-> "none"|"cut"|"readfault"|"writefault", at |-> byte offset]
+          returned,  \* indices of the items whose library call returned a nil error, in order
+          outcome,   \* "open" | "eof" | "injected" : how the last library call ended
+          moved,     \* bytes the transport delivered to the reader / accepted from the writer so far
+          fired,     \* the transport has failed (once)
+          incall     \* 0: between two library calls; i > 0: the call for item i is in progress
+vars == <<plan, returned, outcome, moved, fired, incall>>
 
-Init == /\ plan \in [kind : {"none", "cut", "readfault"}, at : 0..Total]
+Writing == plan.kind = "writefault"
+Visible == IF plan.kind = "cut" THEN plan.at ELSE Total    \* bytes the reader can obtain before the stream ends
+
+Init == /\ plan \in [kind : {"none", "cut", "readfault", "writefault"}, at : 0..Total]
         /\ (plan.kind = "none" => plan.at = Total)
-        /\ returned = <<>> /\ outcome = "reading"
+        /\ returned = <<>> /\ outcome = "open" /\ moved = 0 /\ fired = FALSE /\ incall = 0
 
-Visible == plan.at     \* bytes the reader can obtain before the stream ends / fails
+\* the caller asks for the next item (a reader goes on until an error, also past the last item)
+Call == /\ incall = 0 /\ outcome = "open"
+        /\ (Writing => Len(returned) < N)
+        /\ incall' = Len(returned) + 1
+        /\ UNCHANGED <<plan, returned, outcome, moved, fired>>
 
-\* one reader call: the next item if it was completely transferred, else the stream's end or failure
-ReadItem ==
-  /\ outcome = "reading"
-  /\ LET i == Len(returned) + 1 IN
-     IF i <= N /\ (EndOf(i) <= Visible \/ (PartialOk /\ EndOf(i - 1) < Visible))
-     THEN returned' = Append(returned, i) /\ UNCHANGED outcome
-     ELSE /\ outcome' = IF plan.kind = "readfault" THEN "injected" ELSE "eof"
-          /\ UNCHANGED returned
+Need(i) == IF i <= N THEN EndOf(i) ELSE Total + 1
+Armed == plan.kind \in {"readfault", "writefault"} /\ ~fired /\ moved >= plan.at
+
+\* one transport call issued by the library call in progress
+TransportCall ==
+  /\ incall > 0 /\ moved < Need(incall)
+  /\ IF Armed
+     THEN /\ fired' = TRUE
+          /\ IF Swallow = "at-boundary" /\ moved = EndOf(incall - 1)
+             THEN UNCHANGED <<returned, outcome, moved, incall>>                         \* dropped, the call goes on
+             ELSE outcome' = "injected" /\ incall' = 0 /\ UNCHANGED <<returned, moved>>  \* the call in progress reports it
+     ELSE IF ~Writing /\ moved = Visible
+     THEN /\ IF PartialOk /\ incall <= N /\ moved > EndOf(incall - 1)
+             THEN returned' = Append(returned, incall) /\ UNCHANGED outcome
+             ELSE outcome' = "eof" /\ UNCHANGED returned
+          /\ incall' = 0 /\ UNCHANGED <<moved, fired>>
+     ELSE /\ \E n \in (moved + 1)..(IF Writing THEN EndOf(incall) ELSE Visible) : moved' = n
+          /\ UNCHANGED <<returned, outcome, fired, incall>>
   /\ UNCHANGED plan
-Next == ReadItem
+
+\* the library call returns its item with a nil error
+Return == /\ incall > 0 /\ incall <= N /\ moved >= EndOf(incall)
+          /\ returned' = Append(returned, incall) /\ incall' = 0
+          /\ UNCHANGED <<plan, outcome, moved, fired>>
+
+Next == Call \/ TransportCall \/ Return
 Spec == Init /\ [][Next]_vars
 
 \* exactly the completely transferred items, in order, nothing fabricated or duplicated
-Complete == {i \in 1..N : EndOf(i) <= Visible}
+Complete == {i \in 1..N : EndOf(i) <= moved}
 ReturnedOk == /\ \A k \in 1..Len(returned) : returned[k] = k /\ returned[k] \in Complete
-              /\ (outcome # "reading" => Len(returned) = (IF Complete = {} THEN 0 ELSE
-                                                          CHOOSE i \in Complete : \A j \in Complete : j <= i))
+              /\ (outcome # "open" => Len(returned) = Cardinality(Complete))
+\* a transport failure is never swallowed: the library call during which the transport failed reports it
+ErrorSurfaces == (fired /\ incall = 0) => outcome = "injected"
 \* an error ends the stream of results and its class is the transport's
-ErrorClass == outcome \in {"reading", "eof", "injected"} /\ (outcome = "injected" => plan.kind = "readfault")
+ErrorClass == /\ outcome \in {"open", "eof", "injected"}
+              /\ (outcome = "injected" => fired)
+              /\ (outcome = "eof" => ~Writing /\ moved = Visible)
 =============================================================================
